@@ -99,7 +99,8 @@ static std::string _str(const Basic &a)
 
 extern "C" {
 struct BasicCodePrinterSettings {
-    SymEngine::CodePrinterPrecision precision;
+    SymEngine::CodePrinterPrecision precision
+        = SymEngine::CodePrinterPrecision::Double;
 };
 }
 
